@@ -16,7 +16,7 @@ RULE = ("planted-fault exploration through the command line: a catalogue of 53 e
         "without --lst), a sentinel file pre-created at every output path. Oracle: exit status != 0 <=> the fault set holds an error kind "
         "<=> an Error diagnostic was printed; on failure the directory snapshot is unchanged (nothing created, sentinels untouched); on "
         "success every selected output and listing exists; for one program the exit status, file set and file bytes are identical across "
-        "all -W selections and both formats. Separate families: unwritable output paths among several outputs; an unreadable input (missing, "
+        "all -W selections and both formats. Separate families: an image written to standard output under 8 spellings of '-o-.ext' x 5 -W selections x 2 formats (same bytes); unwritable output paths among several outputs; an unreadable input (missing, "
         "a directory, not UTF-8) at every position among 1-3 inputs x 3 output options x 2 formats. state = (program, fault "
         "set, configuration); transition = one planted fault or one configuration step; non-trivial = distinct state")
 ASSUMPTIONS = ["message texts and the number of reports are not compared", "the in-process command-line driver is re-validated against fresh processes in C18"]
@@ -77,6 +77,7 @@ def cases(tier):
             yield {"k": "triples", "first": a, "second": b}
     for name in SWEEP:
         yield {"k": "sweep", "prog": name}
+    yield {"k": "stdout-image"}
     yield {"k": "unwritable"}
     yield {"k": "inputs"}
 
@@ -175,7 +176,34 @@ def phase_of(case):
     return "+".join(ph) or "valid"
 
 
+def stdout_image(r):
+    """the image written to standard output ('-o -', '-o-.ext') is the same bytes under every -W selection and both report formats"""
+    src = "start:\tmov #start, r0\n\t.word\n\tclr @r0\n\thalt\n"     # two warnings (one default, one not)
+    for oname in ("-", "-.bin", "-.raw", "-.BIN", "-.Bin", "-.rom", "-.sav", "-.x"):
+        seen = {}
+        for fmt in FORMATS:
+            for wsel in ([], ["-Wall"], ["-Wno-all"], ["-Wno-implicit-operand"], ["-Wlegacy-deferred"]):
+                co = driver.cli(["m.mac"] + (["-o", "-"] if oname == "-" else ["-o" + oname]) + ["--report-format", fmt] + wsel, {"m.mac": src}, keep=True)
+                try:
+                    seen[(fmt, tuple(wsel))] = (co.exit, bytes(co.stdout) if fmt == "graphical" or True else None)
+                    r.ran("exit%s" % co.exit, key=("stdout-image", oname, fmt, tuple(wsel)))
+                finally:
+                    shutil.rmtree(co.root, ignore_errors=True)
+        ref_key = ("graphical", ("-Wno-all",))
+        ref = seen[ref_key]
+        if ref[0] != 0 or len(ref[1]) < 10:
+            r.violation("stdout-image-missing", "-o%s: exit %s and %d bytes on standard output" % (oname, ref[0], len(ref[1])), {"k": "stdout-image"}, "exit 0 and an image", {"exit": ref[0]})
+            continue
+        for k2, got in seen.items():
+            if got != ref:
+                r.violation("stdout-image-depends-on-options", "-o%s: exit status / bytes on standard output under %s differ from those under %s" % (oname, k2, ref_key),
+                            {"k": "stdout-image"}, {"exit": ref[0], "stdout": ref[1].hex()[:120]}, {"exit": got[0], "stdout": got[1].hex()[:120]})
+                break
+
+
 def check(case, r, tier):
+    if case.get("k") == "stdout-image":
+        return stdout_image(r)
     k = case["k"]
     if k == "replay":
         tree, files = plant(case["faults"], case["positions"], case["layout"], no_final_newline=case.get("nonl", False))
